@@ -236,6 +236,23 @@ impl Builder {
                 }))
                 .cast_into()
             }
+            "isground" => {
+                // non-relational leaf: succeeds iff the term as written (no walking) has no variable
+                let t = self.term(&g[1]);
+                fn ground(t: &T) -> bool {
+                    crate::project::term_json(t, &Names::new()).to_string().find("var").is_none()
+                        && crate::project::term_json(t, &Names::new()).to_string().find("any").is_none()
+                        && crate::project::term_json(t, &Names::new()).to_string().find("proj").is_none()
+                }
+                FnGoal::new::<K>(Box::new(move |_solver, state| {
+                    if ground(&t) {
+                        Stream::unit(Box::new(state))
+                    } else {
+                        Stream::empty()
+                    }
+                }))
+                .cast_into()
+            }
             "isnum" => {
                 let t = self.term(&g[1]);
                 FnGoal::new::<K>(Box::new(move |_solver, state| {
